@@ -348,6 +348,9 @@ def check(prog, rep):
 
 
 VARIANTS = [
+    ("B debug line reads the first event of list one", "aw_transform/union_no_overlap.py", "    events_union = []\n", "    import logging\n\n    logging.getLogger(__name__).debug(\"first %s\", events1[0].timestamp)\n    events_union = []\n", "LOG-TOTAL"),
+    ("OK debug line reads the first event under a guard", "aw_transform/union_no_overlap.py", "    events_union = []\n", "    import logging\n\n    if events1:\n        logging.getLogger(__name__).debug(\"first %s\", events1[0].timestamp)\n    events_union = []\n", "ok"),
+
     ("B fail-fast input validation that also rejects events sharing an edge", F, "    events2 = deepcopy(events2)\n", "    events2 = deepcopy(events2)\n    for prev, cur in zip(events2, events2[1:]):\n        if cur.timestamp <= prev.timestamp + prev.duration:\n            raise ValueError(\"events2 must be sorted and must not overlap itself\")\n", "ACCEPTS"),
     ("OK fail-fast input validation that rejects only real overlap", F, "    events2 = deepcopy(events2)\n", "    events2 = deepcopy(events2)\n    for prev, cur in zip(events2, events2[1:]):\n        if cur.timestamp < prev.timestamp + prev.duration:\n            raise ValueError(\"events2 must be sorted and must not overlap itself\")\n", "ok"),
     ("B timestamp setter keeps zero-offset zones (Europe/London in winter) unconverted", "aw_core/models.py", "        self[\"timestamp\"] = _timestamp_parse(timestamp).astimezone(timezone.utc)", "        ts = _timestamp_parse(timestamp)\n        if ts.utcoffset() != timedelta(0):\n            ts = ts.astimezone(timezone.utc)\n        self[\"timestamp\"] = ts", "NORMALISE"),
